@@ -18,6 +18,7 @@ import MinizProof.Lemmas.CoreGrow
 import MinizProof.Lemmas.CoreSession
 import MinizProof.Lemmas.CoreRingCalls
 import MinizProof.Lemmas.CoreRingRun
+import MinizProof.Lemmas.CoreFlags
 import MinizProof.Props.C03
 set_option maxRecDepth 100000
 namespace C07
@@ -247,6 +248,108 @@ theorem valid_zlib_stream_under_any_schedule (flags : Nat) (calls : List (Array 
     (0 + lastGrant ((c, g) :: calls) - 0) flags maxDist zr rfl ⟨rfl, rfl, rfl⟩ hflat hz hstop (Nat.zero_le _) hspec hroom
   refine ⟨by rw [← h1]; exact o1, by rw [← h3]; exact o2, ?_, fun i hi => by rw [← h2]; exact o4 i hi⟩
   rw [← h4 (by rw [o1]; decide)]; exact o3
+
+/-! ### The more-input flag between calls
+
+The call-level theorems above keep one flag word for all calls of a schedule, so a suspended call
+necessarily carries `TINFL_FLAG_HAS_MORE_INPUT` (without it a starved call is a failure). Real drivers
+drop the flag on the call that offers the last input (`inflate()` does for `Finish`). The flag is read
+in one place only — when the input runs dry — and that is proved here from one equation per state
+(`Lemmas/CoreFlags`): two calls whose flag words differ only in that flag make the same transitions,
+and are the same call unless the input ran dry. -/
+open Model.Core in
+/-- ONE CALL, FOR EVERY INPUT AND REGISTER STATE: if the call under `fl` ends in a status other than
+    the three a starved exit is reported as, the call under any `fl'` that differs from `fl` only in the
+    more-input flag returns exactly the same result (status, counts, buffer, saved registers). -/
+theorem more_input_flag_read_only_when_starved (fl fl' : Nat) (h : FlagsBut fl fl') (r : Regs) (inp out : Array UInt8)
+    (outPos budget : Nat)
+    (h1 : (decompress r inp out outPos budget fl).status ≠ stNeedsMoreInput)
+    (h2 : (decompress r inp out outPos budget fl).status ≠ stHasMoreOutput)
+    (h3 : (decompress r inp out outPos budget fl).status ≠ stFailedCannotMakeProgress) :
+    decompress r inp out outPos budget fl' = decompress r inp out outPos budget fl :=
+  decompress_flag_same h r inp out outPos budget h1 h2 h3
+
+open Model.Core in
+/-- … and a call without the flag that does not report "cannot make progress" is the call with it. -/
+theorem dropping_the_more_input_flag (fl fl' : Nat) (h : FlagsBut fl fl') (hno : hasFlag fl' fHasMoreInput = false)
+    (r : Regs) (inp out : Array UInt8) (outPos budget : Nat)
+    (hs : (decompress r inp out outPos budget fl').status ≠ stFailedCannotMakeProgress) :
+    decompress r inp out outPos budget fl = decompress r inp out outPos budget fl' :=
+  decompress_drop_more h hno r inp out outPos budget hs
+
+open Model.Core in
+/-- When the call without the flag does starve, the call with the flag stopped at the same place:
+    same bytes written, same counts, and a status that asks for more input or more room. -/
+theorem starved_without_the_flag (fl fl' : Nat) (h : FlagsBut fl fl') (r : Regs) (inp out : Array UInt8)
+    (outPos budget : Nat)
+    (hs : (decompress r inp out outPos budget fl').status = stFailedCannotMakeProgress) :
+    ((decompress r inp out outPos budget fl).status = stNeedsMoreInput ∨
+      (decompress r inp out outPos budget fl).status = stHasMoreOutput ∨
+      (decompress r inp out outPos budget fl).status = stFailedCannotMakeProgress) ∧
+    (decompress r inp out outPos budget fl).out = (decompress r inp out outPos budget fl').out ∧
+    (decompress r inp out outPos budget fl).consumed = (decompress r inp out outPos budget fl').consumed ∧
+    (decompress r inp out outPos budget fl).written = (decompress r inp out outPos budget fl').written :=
+  decompress_starved h r inp out outPos budget hs
+
+open Model.Core in
+/-- A VALID RAW STREAM UNDER ANY SCHEDULE WHOSE LAST CALL DROPS THE FLAG (`runCallsFin`: every call
+    but the last under `fl`, the last under `fl'`): the driver makes exactly the calls of the one-flag
+    driver, ends with `Done`, the specified bytes and ⌈bits/8⌉ bytes consumed. -/
+theorem valid_stream_last_call_without_more_input (fl fl' : Nat) (hfl : FlagsBut fl fl')
+    (calls : List (Array UInt8 × Nat)) (out : Array UInt8)
+    (c : Array UInt8) (g maxDist : Nat) (res : Spec.Inflated)
+    (hflat : hasFlag fl fNonWrapping = true) (hz : hasFlag fl fParseZlib = false)
+    (hstop : hasFlag fl fStopOnBlockBoundary = false)
+    (hspec : Spec.inflateSpec (out.extract 0 0) maxDist (#[] ++ catChunks ((c, g) :: calls)) 0 = .accept res)
+    (hroom : 0 + res.out.size ≤ min (0 + (0 + lastGrant ((c, g) :: calls) - 0)) out.size)
+    (hmono : grantsMono ((c, g) :: calls))
+    (hsus : ∀ r ∈ (runCallsFin fl fl' 0 {} out 0 #[] ((c, g) :: calls)).dropLast, suspended r) :
+    runCallsFin fl fl' 0 {} out 0 #[] ((c, g) :: calls) = runCalls fl 0 {} out 0 #[] ((c, g) :: calls) ∧
+    ∃ last, (runCallsFin fl fl' 0 {} out 0 #[] ((c, g) :: calls)).getLast? = some last ∧
+      last.status = stDone ∧
+      sumWritten (runCallsFin fl fl' 0 {} out 0 #[] ((c, g) :: calls)) = res.out.size ∧
+      sumConsumed (runCallsFin fl fl' 0 {} out 0 #[] ((c, g) :: calls)) = (res.bitsUsed + 7) / 8 ∧
+      (∀ i, i < res.out.size → last.out[0 + i]? = res.out[i]?) := by
+  rw [runCallsFin_dropLast] at hsus
+  have hne : runCalls fl 0 {} out 0 #[] ((c, g) :: calls) ≠ [] := List.cons_ne_nil _ _
+  obtain ⟨last, hlast⟩ : ∃ last, (runCalls fl 0 {} out 0 #[] ((c, g) :: calls)).getLast? = some last :=
+    ⟨_, List.getLast?_eq_some_getLast hne⟩
+  obtain ⟨o1, o2, o3, o4⟩ := valid_stream_under_any_schedule fl calls out c g maxDist res hflat hz hstop hspec hroom hmono hsus last hlast
+  have heq := runCallsFin_eq hfl 0 ((c, g) :: calls) {} out 0 #[] last hlast
+    (by rw [o1]; decide) (by rw [o1]; decide) (by rw [o1]; decide)
+  rw [heq]
+  exact ⟨rfl, last, hlast, o1, o2, o3, o4⟩
+
+open Model.Core in
+/-- The same for the zlib format. -/
+theorem valid_zlib_stream_last_call_without_more_input (fl fl' : Nat) (hfl : FlagsBut fl fl')
+    (calls : List (Array UInt8 × Nat)) (out : Array UInt8)
+    (c : Array UInt8) (g maxDist : Nat) (zr : Spec.ZInflated)
+    (hflat : hasFlag fl fNonWrapping = true) (hz : hasFlag fl fParseZlib = true)
+    (hstop : hasFlag fl fStopOnBlockBoundary = false)
+    (hspec : Spec.zlibSpec (out.extract 0 0) maxDist (#[] ++ catChunks ((c, g) :: calls)) true = .accept zr)
+    (hroom : 0 + zr.inner.out.size ≤ min (0 + (0 + lastGrant ((c, g) :: calls) - 0)) out.size)
+    (hmono : grantsMono ((c, g) :: calls))
+    (hsus : ∀ r ∈ (runCallsFin fl fl' 0 {} out 0 #[] ((c, g) :: calls)).dropLast, suspended r) :
+    runCallsFin fl fl' 0 {} out 0 #[] ((c, g) :: calls) = runCalls fl 0 {} out 0 #[] ((c, g) :: calls) ∧
+    ∃ last, (runCallsFin fl fl' 0 {} out 0 #[] ((c, g) :: calls)).getLast? = some last ∧
+      last.status = stDone ∧
+      sumWritten (runCallsFin fl fl' 0 {} out 0 #[] ((c, g) :: calls)) = zr.inner.out.size ∧
+      sumConsumed (runCallsFin fl fl' 0 {} out 0 #[] ((c, g) :: calls)) = zr.bytesUsed ∧
+      (∀ i, i < zr.inner.out.size → last.out[0 + i]? = zr.inner.out[i]?) := by
+  rw [runCallsFin_dropLast] at hsus
+  have hne : runCalls fl 0 {} out 0 #[] ((c, g) :: calls) ≠ [] := List.cons_ne_nil _ _
+  obtain ⟨last, hlast⟩ : ∃ last, (runCalls fl 0 {} out 0 #[] ((c, g) :: calls)).getLast? = some last :=
+    ⟨_, List.getLast?_eq_some_getLast hne⟩
+  obtain ⟨o1, o2, o3, o4⟩ := valid_zlib_stream_under_any_schedule fl calls out c g maxDist zr hflat hz hstop hspec hroom hmono hsus last hlast
+  have heq := runCallsFin_eq hfl 0 ((c, g) :: calls) {} out 0 #[] last hlast
+    (by rw [o1]; decide) (by rw [o1]; decide) (by rw [o1]; decide)
+  rw [heq]
+  exact ⟨rfl, last, hlast, o1, o2, o3, o4⟩
+
+/-- the flag words of `inflate()`: zlib into a flat buffer, with (3 + 4) and without (1 + 4) the more-input flag -/
+example : Model.Core.FlagsBut 7 5 := ⟨by decide, by decide, by decide, by decide, by decide⟩
+example : Model.Core.hasFlag 5 Model.Core.fHasMoreInput = false := by decide
 
 /-! ### Across buffer modes: a ring buffer against a flat buffer
 
